@@ -102,7 +102,9 @@ Info(n) == IF doc[n].k = "open"
 Pick(S) == RandomElement(S)
 RndOpen ==
   /\\ ~fin /\\ Len(doc) < MaxItems /\\ depth < MaxDepth
-  /\\ \\E ds \\in {IF Pick(BOOLEAN) THEN {} ELSE {Pick(Decl)}}, a1 \\in {Pick(Attr \\cup {[f |-> "none"]})},
+  /\\ \\E ds \\in {LET r == Pick(1..3) IN IF r = 1 THEN {} ELSE IF r = 2 THEN {Pick(Decl)}
+                                          ELSE {Pick([p : {"", "i18n"}, u : Uris])}},    \\* re-declarations of a prefix that is bound by default
+         a1 \\in {IF Pick(BOOLEAN) THEN Pick(Attr \\cup {[f |-> "none"]}) ELSE Pick({[f |-> "pre", p |-> "i18n"], [f |-> "bare"]})},
          a2 \\in {Pick(Attr \\cup {[f |-> "none"]})}, sc \\in {Pick(BOOLEAN)}, un \\in {Pick(BOOLEAN)}, ep \\in {Pick(ElemP)}, dfirst \\in {Pick(BOOLEAN)} :
         /\\ doc' = Append(doc, [k |-> "open", ds |-> ds,
                                 as |-> SelectSeq(<<a1, IF a1.f = "none" THEN a1 ELSE a2>>, LAMBDA a : a.f # "none"),
